@@ -68,7 +68,7 @@ class Edits:
         return ''.join(out)
 
 
-def _clean_tokens(rf, ed, lo, hi, attrs=()):
+def _clean_tokens(rf, ed, lo, hi, attrs=(), inner_attrs_ok=False, keep_derive=KEEP_DERIVE):
     """Register the DROPPED edits for code-token range [lo,hi) (plus comment tokens in between)."""
     k0 = rf.code[lo]
     k1 = rf.code[hi - 1]
@@ -82,10 +82,22 @@ def _clean_tokens(rf, ed, lo, hi, attrs=()):
         start = rf.ct(a).start; end = rf.ct(b - 1).end
         m = re.match(r'#\[derive\((.*)\)\]$', txt)
         if m:
-            keep = [d for d in m.group(1).split(',') if d in KEEP_DERIVE]
+            keep = [d for d in m.group(1).split(',') if d in keep_derive]
             ed.replace(start, end, ('#[derive(' + ', '.join(keep) + ')]') if keep else '')
         else:
             ed.delete(start, end)
+    # attributes nested inside the item (variant / field attributes such as #[default], #[serde(..)])
+    ci = lo
+    while ci < hi:
+        if rf.ct(ci).text == '#' and ci + 1 < hi and rf.ct(ci + 1).text == '[' and not any(a <= ci < b for a, b in attrs):
+            e = rf.match(ci + 1)
+            txt = rf.joined(ci, e + 1)
+            if not inner_attrs_ok and not re.match(r'#\[(allow|inline|must_use)', txt):
+                raise ExtractError(f'{rf.path}: attribute {txt} inside a function body is not droppable')
+            ed.delete(rf.ct(ci).start, rf.ct(e).end)
+            ci = e + 1
+            continue
+        ci += 1
     # path prefixes and visibility
     ci = lo
     while ci < hi:
@@ -121,7 +133,7 @@ class FnSplicer:
     def splice(self):
         rf, it, spec = self.rf, self.it, self.spec
         known = {'result', 'requires', 'ensures', 'decreases', 'loops', 'proofs', 'closures', 'props', 'note',
-                 'unroll_fn_array', 'opens_invariants', 'no_unwind', 'external_body', 'returns', 'mode_attr'}
+                 'unroll_fn_array', 'opens_invariants', 'no_unwind', 'external_body', 'returns', 'mode_attr', 'assumed'}
         bad = set(spec) - known
         if bad:
             raise ExtractError(f'unknown spec keys {bad}')
@@ -409,25 +421,25 @@ class Unit:
     def _origin(self, rel, item):
         return f'{rel}:{item.line()}'
 
-    def item(self, rel, selector, cfg_not=None, nth=None, drop_where=False):
+    def item(self, rel, selector, cfg_not=None, nth=None, derive=KEEP_DERIVE):
         """copy a type/trait item verbatim (after DROPPED)."""
         rf = self.file(rel)
         it = rf.get_item(selector, cfg_not=cfg_not, nth=nth)
         a = rf.ct(it.start).start; b = rf.ct(it.end - 1).end
         ed = Edits(rf, a, b)
-        _clean_tokens(rf, ed, it.start, it.end, it.attrs)
+        _clean_tokens(rf, ed, it.start, it.end, it.attrs, inner_attrs_ok=True, keep_derive=derive)
         self.pieces.append(Piece('type', ed.render().strip() + '\n', name=selector, origin=self._origin(rel, it),
                                  sha256=hashlib.sha256(it.raw_text().encode()).hexdigest()))
         return it
 
-    def trait(self, rel, selector, fns, cfg_not=None, extra_members='', supertraits_drop=False):
+    def trait(self, rel, selector, fns, cfg_not=None, extra_members='', supertrait=''):
         """copy a trait declaration keeping only the listed method declarations (with contracts)."""
         rf = self.file(rel)
         it = rf.get_item(selector, cfg_not=cfg_not)
         hdr = rf.spaced(it.kwi, it.body[0])
         hed = Edits(rf, rf.ct(it.kwi).start, rf.ct(it.body[0]).start)
         _clean_tokens(rf, hed, it.kwi, it.body[0])
-        self.pieces.append(Piece('impl-open', 'pub ' + hed.render().strip() + ' {\n' + (extra_members.strip('\n') + '\n' if extra_members else ''),
+        self.pieces.append(Piece('impl-open', 'pub ' + hed.render().strip() + supertrait + ' {\n' + (extra_members.strip('\n') + '\n' if extra_members else ''),
                                  name=selector, origin=self._origin(rel, it)))
         for fname, spec in fns.items():
             self._fn_in(rf, rel, it, fname, spec, qual=selector.split()[-1])
@@ -477,7 +489,7 @@ class Unit:
         name = (qual + '::' if qual else '') + fname
         self.pieces.append(Piece('fn', pre + text + '\n', name=name, origin=self._origin(rel, it),
                                  sha256=hashlib.sha256(it.raw_text().encode()).hexdigest(),
-                                 contract={k: v for k, v in spec.items() if k in ('requires', 'ensures', 'decreases', 'props', 'note', 'external_body')},
+                                 contract={k: v for k, v in spec.items() if k in ('requires', 'ensures', 'decreases', 'props', 'note', 'external_body', 'assumed')},
                                  desugared=sp.desugared))
         self.pieces[-1].contract['clauses'] = sp.clauses
 
